@@ -31,7 +31,7 @@ EV_TASKS_UPDATE, EV_TASKS_IN, EV_TASKS_DEL, EV_TASKS_GET, EV_TASKS_POP = 7, 8, 9
 EV_SPAWN, EV_PROC_SET, EV_PROC_GET, EV_PROC_ITEM, EV_PROC_DEL, EV_PID = 12, 13, 14, 15, 16, 17
 EV_POLL, EV_WAIT, EV_KILL = 18, 19, 20
 EXECUTOR_GROUP = 'pgid-of-the-executor'
-EV_WQ_PUT, EV_WQ_GET, EV_WQ_EMPTY, EV_EXIT, EV_CHECK = 23, 24, 25, 26, 27
+EV_WQ_PUT, EV_WQ_GET, EV_WQ_EMPTY, EV_EXIT, EV_CHECK, EV_GSIG = 23, 24, 25, 26, 27, 28
 EV_OTHER = 99
 NON_MARKING = {EV_WQ_GET, EV_WQ_EMPTY, EV_PROC_SET}    # a round of pulls ends when _check_running is entered (EV_CHECK)
 LOCK_CHECK, LOCK_CANCEL, LOCK_TO = 1, 2, 3
@@ -549,6 +549,7 @@ def build(rp, world, case):
             if pid is EXECUTOR_GROUP:
                 # the executor, the rest of the agent and every task that was not given a session of its own
                 world.anomalies.append('signal %s sent to the process group of the executor' % sig)
+                world.rec(EV_GSIG, 0, int(sig))
                 for q in world.procs.values():
                     if q.state == 'running' and not q.own_group and not q.stubborn:
                         world.rec(EV_KILL, q.u, 1)
@@ -918,9 +919,11 @@ def coq_row_args(case, obs):
 
 C07_CLAUSES = ['announced_once', 'handed_on_once', 'unscheduled_once', 'not_collected_and_canceled',
                'outcome_attached', 'announced_before_handed_on', 'exit_code_truthful', 'named_examined_after_launch',
-               'canceled_only_if_running_when_polled', 'handler_examines_every_named_uid']
+               'canceled_only_if_running_when_polled', 'handler_examines_every_named_uid',
+               'kill_reaches_running_process', 'cancel_does_not_wait_for_natural_end', 'bystanders_not_signalled']
 C08_EXEC_CLAUSES = ['named_end', 'canceled_means_stopped', 'later_met', 'bystanders_untouched', 'named_examined_after_launch',
-                    'canceled_only_if_running_when_polled', 'handler_examines_every_named_uid']
+                    'canceled_only_if_running_when_polled', 'handler_examines_every_named_uid',
+                    'kill_reaches_running_process', 'cancel_does_not_wait_for_natural_end', 'bystanders_not_signalled']
 COQ_HEADER = 'From RP Require Import Exec.Model Exec.Oracle.'
 
 
